@@ -20,6 +20,8 @@ import SMGo.Spec.SM4Fast
 import SMGo.Spec.GCM
 import SMGo.Model.Slice
 import SMGo.Model.GCMGlue
+import SMGo.Model.SM3State
+import SMGo.Gen.SM3Const
 open SMGo SMGo.Model SMGo.Model.Mem
 
 namespace Driver.GCMGlue
@@ -149,6 +151,22 @@ def handle (toks : List String) : Option String :=
       | none => some "err inputs=unchanged"
       | some pt =>
         some ("ok " ++ showB (r.pre ++ pt) ++ " shares=" ++ toString (wantShares r pt.length) ++ " inputs=unchanged")
+  -- `h := sm3.New(); h.Write(msg); h.Sum(in)` with `in` = <prefix> in its own array of <cap> bytes;
+  -- `again=same`: a second `h.Sum(in)` (receiver and heap as the first call left them) returns the same bytes
+  | ["sm3.sumglue", msg, pre, cap] =>
+    match parseBytes msg, parseBytes pre, cap.toNat? with
+    | some msg, some pre, some cap =>
+      if cap < pre.length then some "bad-op" else
+      let tt : List W32 := Gen.SM3Const.tt.map (BitVec.ofNat 32)
+      let st := (SM3.write tt (SM3.reset SM3.zero) msg).1
+      let h : Heap := [pre ++ List.replicate (cap - pre.length) 0]
+      let inp : Slice := { arr := some 0, off := 0, len := pre.length, cap := cap }
+      let (st1, h1, out1) := GCMGlue.sm3Sum tt st h inp
+      let (_, h2, out2) := GCMGlue.sm3Sum tt st1 h1 inp
+      some ("ok " ++ showB (read h1 out1) ++ " shares=" ++ toString (decide (Shares out1 inp)) ++ " " ++
+        showInputs (GCMGlue.unchangedOutside h h1 (GCMGlue.inRegion out1 inp.len 32)) ++
+        " again=" ++ (if read h2 out2 = read h1 out1 then "same" else "different"))
+    | _, _, _ => some "bad-op"
   | _ => none
 
 end Driver.GCMGlue
